@@ -133,6 +133,16 @@ def funcs(ctx, module=None, stubs=None):
             if fi is not None:
                 return make(fi, fname)
         return None
+    def run_imports():
+        """decorators of module-level functions run when their module is imported (registries filled by @_register(key) ...): once per
+        name table, in source order"""
+        for mod_ in ctx.prog.modules.values():
+            for st in mod_.tree.body:
+                if isinstance(st, ast.FunctionDef) and orders._other_decorators(st):
+                    try:
+                        orders.make_func(st, fn)
+                    except (orders.Unsupported, orders.Raised, TypeError, AttributeError, KeyError, ValueError, IndexError, NameError):
+                        pass
     fn.update({'__name__': name_of, '__resolve__': resolve, '__globals__': {},
                'floor': math.floor, 'ceil': math.ceil, 'sqrt': math.sqrt, 'fabs': math.fabs, 'trunc': math.trunc, 'round': round,
                'isnan': lambda v: isinstance(v, float) and v != v, 'print': lambda *a, **k: None})
@@ -146,6 +156,7 @@ def funcs(ctx, module=None, stubs=None):
     fn.update(stubs or {})
     if stubs and '__np_names__' in stubs:
         fn['__defaults__'] |= set(stubs['__np_names__'])
+    run_imports()
     return fn
 
 
@@ -153,7 +164,7 @@ def methods_of(ctx, clsqual):
     """AST methods of a repository class, own methods overriding those of its repository base classes"""
     out = {}
     c = ctx.prog.cls(clsqual)
-    for b in c.bases:
+    for b in reversed(c.bases):          # (the first base listed wins, as in Python's method resolution order)
         for q, ci in ctx.prog.classes.items():
             if ci.name == b.split('.')[-1] and ci is not c:
                 out.update(methods_of(ctx, q))
@@ -168,7 +179,7 @@ def owners_of(ctx, clsqual):
     """method name -> name of the class that defines it (private names are mangled with the DEFINING class)"""
     out = {}
     c = ctx.prog.cls(clsqual)
-    for b in c.bases:
+    for b in reversed(c.bases):
         for q, ci in ctx.prog.classes.items():
             if ci.name == b.split('.')[-1] and ci is not c:
                 out.update(owners_of(ctx, q))
@@ -206,6 +217,25 @@ def consts_of(ctx, clsqual, fn=None):
         out[k] = val
         if k.startswith('__') and not k.endswith('__'):
             out['_' + c.name.lstrip('_') + k] = val
+    if isinstance(fn, dict):
+        # decorators of methods run when the class body is executed (a registry filled by @_handles(table, int) ...): once, in source
+        # order, in the scope of the class
+        for st in c.node.body:
+            if isinstance(st, ast.FunctionDef) and orders._other_decorators(st):
+                def raw(receiver, *a, _st=st, _owner=c.name, **k):
+                    return orders.Obj.call(receiver, _st.name, *a, _fn=_st, _owner=_owner, _raw=True, **k)
+                raw.__name__ = st.name
+                scope = dict(out)
+                scope['__cls__'] = c.name
+                for st2 in c.node.body:         # (functions defined earlier in the class body are plain functions there)
+                    if st2 is st:
+                        break
+                    if isinstance(st2, ast.FunctionDef) and st2.name not in scope:
+                        scope[st2.name] = orders.make_func(st2, fn)
+                try:
+                    orders._decorate(st, raw, fn, env=scope)
+                except orders.Unsupported:
+                    pass
     return out
 
 
@@ -219,6 +249,39 @@ def classnames_of(ctx, clsqual):
                 out |= classnames_of(ctx, q)
     out |= set(c.consts)
     return out
+
+
+def origin(ctx, clsqual, node):
+    """the standard-library object a decorator / base-class expression of a repository class denotes, as 'module.name', following the
+    imports of the class's module (from dataclasses import dataclass as _dataclass; import enum as _enum); the bare text otherwise"""
+    c = ctx.prog.cls(clsqual)
+    modname = clsqual[:-(len(c.name) + 1)]
+    while modname and modname not in ctx.prog.modules:
+        modname = modname.rpartition('.')[0]
+    imports = list(getattr(ctx.prog.modules.get(modname), 'imports', []))
+    # (imports made inside functions / classes of the module count as well)
+    mod = ctx.prog.modules.get(modname)
+    if mod is not None:
+        for n_ in ast.walk(mod.tree):
+            if isinstance(n_, (ast.Import, ast.ImportFrom)) and n_ not in imports:
+                imports.append(n_)
+    if isinstance(node, ast.Call):
+        node = node.func
+    if isinstance(node, ast.Name):
+        for imp in imports:
+            if isinstance(imp, ast.ImportFrom) and imp.level == 0:
+                for al in imp.names:
+                    if (al.asname or al.name) == node.id:
+                        return '%s.%s' % (imp.module, al.name)
+        return node.id
+    if isinstance(node, ast.Attribute) and isinstance(node.value, ast.Name):
+        for imp in imports:
+            if isinstance(imp, ast.Import):
+                for al in imp.names:
+                    if (al.asname or al.name) == node.value.id:
+                        return '%s.%s' % (al.name, node.attr)
+        return '%s.%s' % (node.value.id, node.attr)
+    return ast.unparse(node)
 
 
 def mro_of(ctx, clsqual):
@@ -321,25 +384,48 @@ class ClassRef(orders.PyStub):
         object.__setattr__(self, '_fn', fn)
         object.__setattr__(self, 'isa', ('type',))
         object.__setattr__(self, '_consts', consts_of(ctx, clsqual, fn))
-        kind = [ast.unparse(b).split('.')[-1] for b in c.node.bases]
+        kind = [origin(ctx, clsqual, b).split('.')[-1] for b in c.node.bases]
         if any(k_ in ('Enum', 'IntEnum', 'Flag', 'IntFlag', 'StrEnum') for k_ in kind):
-            # an enumeration: every class-level constant is a member (name, value); IntEnum members are ints
-            if any(k_ in ('Flag', 'IntFlag', 'StrEnum') for k_ in kind) or c.methods:
-                raise orders.Unsupported('enumeration %s with methods / flags' % c.name)
+            # an enumeration: every class-level constant is a member (name, value); IntEnum members are ints; an Enum that defines methods
+            # or properties has members that are records of the class (identity equality, one object per member)
+            if any(k_ in ('Flag', 'IntFlag', 'StrEnum') for k_ in kind):
+                raise orders.Unsupported('flag / string enumeration %s' % c.name)
             is_int = 'IntEnum' in kind
+            plain_methods = [m_ for m_, fi_ in c.methods.items()]
+            if is_int and [m_ for m_ in plain_methods if not any(isinstance(d_, ast.Name) and d_.id in ('classmethod', 'staticmethod') for d_ in c.methods[m_].node.decorator_list)]:
+                raise orders.Unsupported('IntEnum %s with instance methods' % c.name)
             members = self._consts.get('__members__')
             if members is None:
                 members = []
+                self._consts['__members__'] = members
+                auto_n = 0
                 for st in c.node.body:
                     if isinstance(st, ast.Assign) and len(st.targets) == 1 and isinstance(st.targets[0], ast.Name) and not st.targets[0].id.startswith('_'):
                         nm_ = st.targets[0].id
-                        val_ = self._consts.get(nm_)
+                        if isinstance(st.value, ast.Call) and origin(ctx, clsqual, st.value).split('.')[-1] == 'auto':
+                            auto_n = (max([m_.value for m_ in members if isinstance(m_.value, int)] + [0]) + 1) if members else 1
+                            val_ = auto_n
+                        else:
+                            val_ = orders.ev(st.value, dict((m_.name, m_.value) for m_ in members), fn)
                         same = [m_ for m_ in members if m_.value == val_ and type(m_.value) is type(val_)]
-                        m_ = same[0] if same else (_IntMember.make(c.name, nm_, val_) if is_int else _EnumMember(c.name, nm_, val_))
+                        if same:
+                            m_ = same[0]
+                        elif is_int:
+                            m_ = _IntMember.make(c.name, nm_, val_)
+                        elif plain_methods:
+                            m_ = instance(ctx, clsqual, {'_name_': nm_, '_value_': val_}, fn, isa=all_bases(ctx, clsqual))
+                            m_.enum_member = (c.name, nm_)
+                            m_.singleton = True
+                            m_.constructed = True
+                            m_.name, m_.value = nm_, val_
+                            m_.fields['name'], m_.fields['value'] = nm_, val_
+                            if '__init__' in m_.methods:
+                                m_.call('__init__', *(val_ if isinstance(val_, tuple) else (val_,)))
+                        else:
+                            m_ = _EnumMember(c.name, nm_, val_)
                         if not same:
                             members.append(m_)
                         self._consts[nm_] = m_
-                self._consts['__members__'] = members
             object.__setattr__(self, '_enum', members)
         for name, node in methods_of(ctx, clsqual).items():
             params = [a.arg for a in node.args.args]
@@ -404,7 +490,7 @@ class ClassRef(orders.PyStub):
                 seen.add(q)
                 c = self._ctx.prog.cls(q)
                 for b in c.node.bases:
-                    if ast.unparse(b).split('.')[-1] == 'NamedTuple':
+                    if origin(self._ctx, q, b).split('.')[-1] == 'NamedTuple':
                         # class P(NamedTuple): x: float; y: float = 0.0
                         import collections as _cl
                         names_, defaults_ = [], []
@@ -435,8 +521,8 @@ class ClassRef(orders.PyStub):
             c = self._ctx.prog.cls(self._qual)
             opts = None
             for d in c.node.decorator_list:
-                nm = ast.unparse(d.func if isinstance(d, ast.Call) else d).split('.')[-1]
-                if nm == 'dataclass':
+                nm = origin(self._ctx, self._qual, d)
+                if nm in ('dataclasses.dataclass', 'dataclass'):
                     opts = {'eq': True, 'frozen': False, 'order': False, 'init': True, 'repr': True}
                     if isinstance(d, ast.Call):
                         for kw in d.keywords:
@@ -453,16 +539,19 @@ class ClassRef(orders.PyStub):
                 for st in c.node.body:
                     if isinstance(st, ast.AnnAssign) and isinstance(st.target, ast.Name) and 'ClassVar' not in ast.unparse(st.annotation):
                         default = factory = None
+                        in_init = True
                         v = st.value
-                        if isinstance(v, ast.Call) and ast.unparse(v.func).split('.')[-1] == 'field':
+                        if isinstance(v, ast.Call) and origin(self._ctx, self._qual, v) in ('dataclasses.field', 'field'):
                             for kw in v.keywords:
                                 if kw.arg == 'default':
                                     default = kw.value
                                 elif kw.arg == 'default_factory':
                                     factory = kw.value
+                                elif kw.arg == 'init' and isinstance(kw.value, ast.Constant) and not kw.value.value:
+                                    in_init = False
                         elif v is not None:
                             default = v
-                        fields = [f_ for f_ in fields if f_[0] != st.target.id] + [(st.target.id, default, factory)]
+                        fields = [f_ for f_ in fields if f_[0] != st.target.id] + [(st.target.id, default, factory, in_init)]
                 res = (fields, opts)
             object.__setattr__(self, '_dc', res)
         return self.__dict__['_dc']
@@ -515,7 +604,7 @@ class ClassRef(orders.PyStub):
             obj.dcfields = tuple(f_[0] for f_ in fields)
             obj.dcopts = opts
             if opts['init'] and '__init__' not in self._ctx.prog.cls(self._qual).methods:
-                names_ = [f_[0] for f_ in fields]
+                names_ = [f_[0] for f_ in fields if f_[3]]
                 if len(args) > len(names_):
                     raise TypeError('%s.__init__() takes %d positional arguments but %d were given' % (obj.clsname, len(names_) + 1, len(args) + 1))
                 given = dict(zip(names_, args))
@@ -525,14 +614,14 @@ class ClassRef(orders.PyStub):
                     if k_ in given:
                         raise TypeError('%s.__init__() got multiple values for argument %r' % (obj.clsname, k_))
                     given[k_] = v_
-                for nm_, default, factory in fields:
+                for nm_, default, factory, in_init in fields:
                     if nm_ in given:
                         obj.fields[nm_] = given[nm_]
                     elif factory is not None:
                         obj.fields[nm_] = orders.ev(factory, {}, self._fn)()
                     elif default is not None:
                         obj.fields[nm_] = orders.ev(default, {}, self._fn)
-                    else:
+                    elif in_init:
                         raise TypeError('%s.__init__() missing required argument %r' % (obj.clsname, nm_))
                 if '__post_init__' in obj.methods:
                     obj.call('__post_init__')
@@ -578,6 +667,8 @@ def _carry(src, dst):
 def shallow_copy(v):
     """copy.copy for the values of the interpreter: a new record / container holding the same members"""
     import copy as _copy
+    if isinstance(v, orders.Obj) and getattr(v, 'singleton', False):
+        return v
     if isinstance(v, orders.Obj):
         o = orders.Obj(dict(v.fields), v.methods, v.funcs, isa=v.isa)
         o.clsname = v.clsname
@@ -598,6 +689,8 @@ def deep_copy(v, memo=None):
     memo = {} if memo is None else memo
     if id(v) in memo:
         return memo[id(v)]
+    if isinstance(v, orders.Obj) and getattr(v, 'singleton', False):
+        return v
     if isinstance(v, orders.Obj):
         o = orders.Obj({}, v.methods, v.funcs, isa=v.isa)
         o.clsname = v.clsname
